@@ -755,6 +755,36 @@ class RangeEngine(Engine):
     def loop_closed(self, fn, bb):
         return bb in self._loops(fn)[0]
 
+    def _rebound(self, fn, head, l):
+        """is the reference local l assigned, inside the loop, anything but a re-borrow / copy of itself? (e.g. `cur = &cur[2..]`)"""
+        k = (fn['path'], head, l)
+        c = self._rebound_cache.get(k) if hasattr(self, '_rebound_cache') else None
+        if c is not None:
+            return c
+        if not hasattr(self, '_rebound_cache'):
+            self._rebound_cache = {}
+        body = self._loops(fn)[0][head]
+        res = False
+        for bi in body:
+            b = fn['blocks'][bi]
+            for st_ in b['stmts']:
+                lhs = st_.get('lhs')
+                if not lhs or lhs['l'] != l or lhs['p']:
+                    continue
+                rv = st_['rv']
+                src = None
+                if rv['k'] in ('ref', 'rawptr'):
+                    src = rv['p']
+                elif rv['k'] == 'use':
+                    src = rv['a'].get('copy') or rv['a'].get('move')
+                if src is None or src['l'] != l or any(e['k'] not in ('deref',) for e in src['p']):
+                    res = True
+            t = b['term']
+            if t['k'] == 'call' and t['dest']['l'] == l and not t['dest']['p']:
+                res = True
+        self._rebound_cache[k] = res
+        return res
+
     def on_block(self, fn, fid, bb, s, nvisit):
         heads, mods = self._loops(fn)
         if bb not in heads or nvisit != 1:
@@ -796,8 +826,8 @@ class RangeEngine(Engine):
             ty = fn['locals'][l]['ty']
             nm = fn['locals'][l]['name'] or ('_%d' % l)
             old = s.mem.get((fid, l))
-            if ty.startswith('&') and isinstance(old, tuple) and old[0] == 'ref':
-                # a reference re-borrowed in the loop: keep pointing at the same object unless it is rebound to something else
+            if ty.startswith('&') and isinstance(old, tuple) and old[0] == 'ref' and not self._rebound(fn, bb, l):
+                # a reference only re-borrowed from itself in the loop keeps pointing at the same object
                 continue
             v = ('sym', '%s.%s' % (tag, nm))
             if ty in INT_W:
